@@ -75,6 +75,17 @@ def matrix():
                 for x in (0.5, [0.5, 1.0]):
                     yield dict(kind='multicomplex_n_above_2', cls=cls, method='multicomplex', n=n, order=order, x=x,
                                dim=1 if np.isscalar(x) else 2)
+    # ... reached on an object that has been used properly before: n (or the method) set through the public attributes after a
+    # call with n0 <= 2 (or with another method)
+    for n0 in (1, 2):
+        for n in (3, 4, 5, 6, 7, 9, 10):
+            for order in (2, 4):
+                yield dict(kind='multicomplex_n_above_2', cls='Derivative', method='multicomplex', n=n, order=order, x=0.5, dim=1,
+                           reached_from=dict(n=n0, method='multicomplex'))
+    for m0 in ('central', 'complex', 'forward'):
+        for n in (3, 4, 5, 6):
+            yield dict(kind='multicomplex_n_above_2', cls='Derivative', method='multicomplex', n=n, order=2, x=[0.5, 1.0], dim=2,
+                       reached_from=dict(n=n, method=m0))
     # 4. fewer steps than the rule needs
     for method in ('central', 'forward', 'backward', 'complex'):
         for n in (1, 2, 3, 4):
@@ -256,6 +267,19 @@ def run_case(case, ctx):
         ok = expect_value_error(ctx, case, lambda: nd.Derivative(f, method=case['method'], n=case['n'],
                                                                  order=case['order'])(x),
                                 method=case['method'], mode=mode)
+    elif kind == 'multicomplex_n_above_2' and case.get('reached_from'):
+        r0 = case['reached_from']
+
+        def via_setters():
+            d = nd.Derivative(np.exp, method=r0['method'], n=r0['n'], order=case['order'])
+            d(case['x'])
+            if r0['n'] != case['n']:
+                d.n = case['n']
+            if r0['method'] != 'multicomplex':
+                d.method = 'multicomplex'
+            return d(case['x'])
+        ctx.count('misuse_reached_through_setters_on_a_used_object')
+        ok = expect_value_error(ctx, case, via_setters, n=case['n'], reached_from=r0)
     elif kind == 'multicomplex_n_above_2':
         ok = expect_value_error(ctx, case, lambda: nd.Derivative(np.exp, method='multicomplex', n=case['n'],
                                                                  order=case['order'])(case['x']), n=case['n'])
